@@ -124,6 +124,9 @@ KF(ev) ==
          -> "C05-fixed-size-binary-0-panics"
     [] ev.op = "fail" /\ Has(ev, "lvunordered") /\ ev.cdc /\ ev.stage = "write" /\ ev.panic
          -> "C05-cdc-unordered-list-view-panics"
+    [] ev.op = "fail" /\ Has(ev, "bool") /\ ev.cdc /\ ev.stage = "write" /\ ev.panic
+       /\ ev.pmsg = "RLE value encoder is not initialized"
+         -> "C05-cdc-empty-page-boolean-rle-panics"
     [] OTHER -> ""
 
 (***************************************************************************)
